@@ -326,6 +326,16 @@ func init() {
 				}
 			}
 		}
+		// batches larger than workers plus queue: the feeding loop is still blocked submitting when the cancellation arrives
+		// during the first items' one-hour wait - the run must end promptly all the same
+		for _, cc := range []int{1, 2} {
+			for _, extra := range []int{1, 4} {
+				c := TimingCfg{W: 3600000, N: 2, Kind: "batch", Script: make([]bool, 2), CancelAfter: 1, Items: 3*cc + extra, C: cc}
+				cfgs = append(cfgs, c)
+				c.Cause = true
+				cfgs = append(cfgs, c)
+			}
+		}
 		// the same with a fallback that would succeed: a cancelled wait must not be "recovered" by it
 		for _, k := range []string{"struct", "func"} {
 			for _, spec := range [][2]int{{3600000, 1}, {2000, 2}} {
